@@ -9,6 +9,7 @@
     [s] with ONLY the quantized fields written from the step function [q]. *)
 From Coq Require Import ZArith List Bool Reals.
 From Flocq Require Import Core.
+From NS Require Gen.Tr Proofs.TrEquiv01 Gen.TrF Proofs.TrEquivF.
 From NS Require Import Base.Sx Base.NoteSeq Base.FloatBridge Gen.G01 Model.Quantize
                        Proofs.Quantize Proofs.QuantizeFloat Proofs.QuantizeFloatExt Proofs.QuantizeTop.
 Import ListNotations.
@@ -470,3 +471,23 @@ Example C01_q2s_rel_tie_up_nonvacuous :
   q2s t (sps_rel spq qpm) = 14.
 Proof. exact q2s_rel_tie_up_nonvacuous. Qed.
 Print Assumptions C01_q2s_rel_tie_up_nonvacuous.
+
+(** Source-level tie (second kind): the Gallina text re-translated from the SOURCE of
+    sequences_lib._is_power_of_2 on every run (Gen/Tr.v, harness/vt/pytr.py) equals the
+    hand-written model, for all integers. *)
+Theorem C01_source_is_power_of_2 : forall x : Z,
+  NS.Gen.Tr.tr_is_power_of_2 x = Some (is_pow2 x).
+Proof. exact NS.Proofs.TrEquiv01.tr_is_power_of_2_eq. Qed.
+Print Assumptions C01_source_is_power_of_2.
+
+(** ... and the two binary64 functions: quantize_to_step and steps_per_quarter_to_steps_per_second re-translated
+    from their SOURCE into PrimFloat terms (Gen/TrF.v) are the model's [q2s] and [sps_rel], bit for bit. *)
+Theorem C01_source_quantize_to_step : forall t sps,
+  NS.Gen.TrF.trf_quantize_to_step t sps cutoff = Some (q2s t sps).
+Proof. exact NS.Proofs.TrEquivF.trf_quantize_to_step_eq. Qed.
+Print Assumptions C01_source_quantize_to_step.
+
+Theorem C01_source_steps_per_quarter_to_steps_per_second : forall spq qpm,
+  NS.Gen.TrF.trf_steps_per_quarter_to_steps_per_second spq qpm = Some (sps_rel spq qpm).
+Proof. exact NS.Proofs.TrEquivF.trf_sps_eq. Qed.
+Print Assumptions C01_source_steps_per_quarter_to_steps_per_second.
